@@ -552,5 +552,9 @@ def san_sig(san, stderr):
             k = (re.sub(r"\(.*", "", m2.group(1)), m2.group(2))
             cnt[k] = cnt.get(k, 0) + 1
         if cnt:
-            (fn, f), _ = max(sorted(cnt.items()), key=lambda kv: kv[1])
+            # the recursion cycle: frames seen at least half as often as the most frequent one; name the
+            # alphabetically first so the key does not depend on where the unwinder cut the cycle
+            top = max(cnt.values())
+            cyc = sorted(k for k, v in cnt.items() if v >= max(2, top // 2)) or sorted(cnt)
+            fn, f = cyc[0]
     return "%s/%s/%s" % (kind, fn, f)
